@@ -2,7 +2,7 @@
 From Coq Require Import List ZArith Bool.
 From LJT Require Import model.Huff gen.GenParams model.CParams proofs.CParamsHoare proofs.CParamsTj
   proofs.CParamsScript proofs.CParamsChain proofs.CParamsSetup proofs.CParamsBlock proofs.CParamsMaster
-  proofs.CParamsPasses proofs.CParamsSimd proofs.CParamsExamples lib.Sweep model.CProgScript proofs.CProgScriptProofs model.CRestart proofs.CRestartProofs model.CMarker proofs.CMarkerProofs model.CParamApi proofs.CParamApiProofs model.CRefine proofs.CRefineProofs.
+  proofs.CParamsPasses proofs.CParamsSimd proofs.CParamsExamples lib.Sweep model.CProgScript proofs.CProgScriptProofs model.CRestart proofs.CRestartProofs model.CMarker proofs.CMarkerProofs model.CParamApi proofs.CParamApiProofs model.CRefine proofs.CRefineProofs model.CModules proofs.CModulesProofs.
 Import ListNotations.
 Local Open Scope Z_scope.
 
@@ -308,17 +308,25 @@ Theorem C17_simple_progression_complete : forall n ycc c k,
   sa_chain (-1) (hist (simple_progression n ycc) c k).
 Proof. exact simple_progression_complete_lemma. Qed.
 Print Assumptions C17_simple_progression_complete.
-(* jinit_compress_master: every parameter class is rejected (lossless + arithmetic; lossy precision not 8 / 12) or selects
-   exactly one of DCT / lossless path and exactly one entropy encoder; the SOF marker written identifies it *)
+(* jinit_compress_master: `select_modules_gen` INTERPRETS the decision tree gen_Params.py parses out of jcinit.c
+   (gen.GenParams.g_compress_master).  For every parameter class the tree is total; it is rejected (lossless + arithmetic;
+   lossy precision not 8 / 12) or selects exactly one of the DCT / lossless paths and exactly one entropy encoder *)
 Theorem C17_select_modules_ok : forall raw lossless arith progressive prec num_scans optimize,
-  match select_modules raw lossless arith progressive prec num_scans optimize with
+  exists r, select_modules_gen raw lossless arith progressive prec num_scans optimize = Some r /\
+  match r with
   | inl e => (e = ArithNotImpl /\ lossless = true /\ arith = true) \/ (e = BadPrecision /\ lossless = false /\ prec <> 8 /\ prec <> 12)
   | inr m => md_fdct m = negb (md_lossless m) /\ md_lossless m = lossless /\ md_preprocess m = negb raw /\
              md_entropy m = (if lossless then EncLhuff else if arith then EncArith else if progressive then EncPhuff else EncHuff) /\
              md_full_buffer m = ((num_scans >? 1) || optimize)
   end.
-Proof. exact select_modules_ok_lemma. Qed.
+Proof. exact select_modules_gen_ok_lemma. Qed.
 Print Assumptions C17_select_modules_ok.
+(* ... and coincides with the closed-form specification used by the other theorems *)
+Theorem C17_select_modules_gen_spec : forall raw lossless arith progressive prec num_scans optimize,
+  select_modules_gen raw lossless arith progressive prec num_scans optimize =
+  Some (select_modules raw lossless arith progressive prec num_scans optimize).
+Proof. exact select_modules_gen_spec_lemma. Qed.
+Print Assumptions C17_select_modules_gen_spec.
 Theorem C17_sof_identifies_encoder : forall img prec16 raw num_scans optimize m,
   select_modules raw (im_lossless img) (im_arith img) (im_progressive img) (im_prec img) num_scans optimize = inr m ->
   (im_lossless img = true -> im_progressive img = false) ->
